@@ -1671,6 +1671,8 @@ def run_oforms(ctx):
 # ====================================================================================================
 DES_TAGS = {91: 'an equation of the compartmental system rebuilt from $DES evaluates differently from the DADT(i) written',
             92: 'an equation of the $DES system is missing in the compartmental system'}
+DES_CORR = {93: 'flows of the system built from $DES differ from the model C01/Des.v (des_flows / des_outs)',
+            94: 'the parsed $DES equations are not sums of terms k*A', 96: 'internal: des_guard true but des_sound fails'}
 DES_NAMES = ['DEPOT', 'CENTRAL', 'PERI', 'EFFECT']
 
 
@@ -1733,18 +1735,30 @@ def observe_des(spec, prng, mutate=None):
     txt, toks, rates, cnames = des_text_tokens(spec)
     model = read_model_from_string(txt)
     cs = model.statements.ode_system
+    from pharmpy.model import output
     names = ct.Names()
+    names.get('__output__')          # id 1 = the output compartment in d_flows
     cmap = model.internals.compartment_map
     eqs = []
     for eq in cs.eqs:
         lhs = sc.to_sympy(eq.lhs)
         cname = str(lhs.args[0].func)[2:]        # Derivative(A_NAME(t), t)
         eqs.append(ct.pair(names.p(f'D{cmap[cname]}'), sc.expr(eq.rhs, names)))
+    lhs_map = ct.lst([ct.pair(names.p(f'D{k + 1}'), names.p(f'A_{c}(t)')) for k, c in enumerate(cnames)])
+    comps = [cs.find_compartment(nm) for nm in cs.compartment_names]
+    flows = []
+    for c1 in comps:
+        for c2 in comps + [output]:
+            fl = cs.get_flow(c1, c2)
+            if fl != 0:
+                to = names.p('__output__') if c2 is output else names.p(f'A_{c2.name}(t)')
+                flows.append(ct.tup(names.p(f'A_{c1.name}(t)'), to, sc.expr(fl, names)))
     if mutate:
-        eqs = mutate(eqs)
+        eqs, flows = mutate(eqs, flows)
     leaves = rates + [f'A_{c}(t)' for c in cnames] + ['t']
     pts = [{nm: prng.choice([F(1), F(2), F(3), F(5), F(7), F(1, 2), F(4), F(3, 2), F(11)]) for nm in leaves} for _ in range(4)]
-    term = f"(mkDCase {tok_term(toks, names)}\n  {ct.lst(eqs)}\n  {ct.lst([sc.env(p, names) for p in pts])})"
+    term = (f"(mkDCase {tok_term(toks, names)}\n  {ct.lst(eqs)}\n  {lhs_map}\n  {ct.lst(flows)}\n  "
+            f"{ct.lst([sc.env(p, names) for p in pts])})")
     return term, txt
 
 
@@ -1771,13 +1785,20 @@ def run_des(ctx, mutate=None):
     for spec, v, txt in zip(kept, verdicts, texts):
         if 1091 in v:
             ctx.broken.append('the reference parser refuses the $DES tokens of ' + json.dumps(spec))
-        for t in sorted(set(v)):
-            if t in DES_TAGS:
-                bad += 1
-                ctx.violation(DES_TAGS[t], {'kind': 'des', 'spec': spec, 'control_stream': txt, 'tags': v})
+        oracle = [t for t in sorted(set(v)) if t in DES_TAGS]
+        for t in oracle:
+            bad += 1
+            ctx.violation(DES_TAGS[t], {'kind': 'des', 'spec': spec, 'control_stream': txt, 'tags': v})
+        corr = [t for t in sorted(set(v)) if t in DES_CORR]
+        if corr and not oracle:
+            bad += 1
+            if len([b for b in ctx.broken if 'C01/Des.v' in b]) < 3:
+                ctx.broken.append('correspondence C01/Des.v vs to_compartmental_system: ' + ', '.join(DES_CORR[t] for t in corr)
+                                  + ' on ' + json.dumps(spec))
     cov = ctx.coverage
     cov['des_cases'] = len(kept)
     cov['des_bad'] = bad
+    cov['des_guard_false'] = sum(1 for v in verdicts if 295 in v)
     cov['evaluations'] += sum(s['n'] for s in kept) * 4
     cov['distinct_nontrivial'] += len(set(texts))
     cov.setdefault('input_distribution', {})['des'] = {
